@@ -295,6 +295,8 @@ fn foreign_pool() -> Vec<Value> {
         json!({"t": "A", "c": 1}), json!({"t": "B", "c": {"y": "s"}}), json!({"t": "C", "c": null}), json!({"t": "D", "c": [1, 2]}), json!({"t": "D", "c": [1, 2, 3]}), json!({"c": 1, "t": "A"}),
         json!({"Opt": null}), json!({"Opt": 3}), json!({"Unit": null}), json!({"UnitStruct": null}), json!({"OptOpt": null}), json!({"Plain": null}), json!("Plain"), json!("Opt"),
         json!({"Seq": [null, 1]}), json!({"Seq": null}), json!({"Opt": [1]}), json!({"Unit": 1}),
+        json!("Tuple"), json!("Struct"), json!({"Tuple": 1}), json!({"Tuple": "x"}), json!({"Tuple": {}}), json!({"Tuple": []}), json!({"Struct": 1}), json!({"Struct": "x"}),
+        json!({"Unit": 1}), json!({"Unit": []}), json!({"Newtype": null}), json!({"Newtype": "1"}), json!([]), json!([[]]), json!({"t": "D", "c": []}), json!({"t": "A", "c": null}),
         json!({"id": 1, "k": 2, "j": 3}), json!({"id": 1}), json!({"id": "x"}), json!({"renamed-key": 5, "y": null}), json!({"renamed-key": 5, "y": {"renamed-key": 6, "y": null}}), json!({"x": 5}),
     ]
 }
